@@ -27,6 +27,10 @@ func Context(req *http.Request) (context.Context, error) {
 // buildContext adds key/value pairs in entries that are of the form
 // `urlencode(key)=urlencode(value)` to the passed in context.
 func buildContext(ctx context.Context, entries []string) (context.Context, error) {
+	// collect the pairs and attach them in one step: attaching them one by one
+	// copies the metadata gathered so far for every entry.
+	var pairs map[string]string
+
 	for _, entry := range entries {
 		var key, value string
 		var err error
@@ -45,10 +49,13 @@ func buildContext(ctx context.Context, entries []string) (context.Context, error
 			return nil, err
 		}
 
-		ctx = drpcmetadata.Add(ctx, key, value)
+		if pairs == nil {
+			pairs = make(map[string]string, len(entries))
+		}
+		pairs[key] = value
 	}
 
-	return ctx, nil
+	return drpcmetadata.AddPairs(ctx, pairs), nil
 }
 
 // unhex adds to the accumulator c the numeric value of the hex digit v
